@@ -3,6 +3,7 @@ package webtransport
 import (
 	"encoding/binary"
 	"io"
+	"math"
 
 	"github.com/karagenc/socket.io-go/engine.io/parser"
 )
@@ -85,9 +86,18 @@ func nextPacket(r io.Reader) (*parser.Packet, error) {
 			if err != nil {
 				return nil, err
 			}
-			expectedLen = int(binary.BigEndian.Uint32(header[:]))
+			// The extended length is a 64-bit big-endian integer.
+			l := binary.BigEndian.Uint64(header[:])
+			if l > math.MaxInt32 {
+				return nil, ErrLimitReached
+			}
+			expectedLen = int(l)
 			state = ReadPayload
 		case ReadPayload:
+			// Compare the announced length with the limit before allocating the buffer.
+			if lr, ok := r.(*limitedReader); ok && lr.limit > 0 && int64(expectedLen) > lr.limit {
+				return nil, ErrLimitReached
+			}
 			return parser.DecodeWithLen(r, isBinary, expectedLen)
 		}
 	}
